@@ -73,7 +73,10 @@ pub struct Workload {
     pub main_refs: Vec<Ref>,
     /// 0: compile_clvm_text, classic_with_opts = true (Python / JS entry);
     /// 1: compile_clvm_text, classic_with_opts = false; 2: compile_clvm file to file;
-    /// 3: listing and compile both through cmds::launch_tool (`run -M ...`, `run ...`)
+    /// 3: listing and compile both through cmds::launch_tool (`run -M ...`, `run ...`);
+    /// 4: the Python binding itself, `chialisp.check_dependencies` and
+    /// `chialisp.compile_clvm` called in an embedded interpreter (builds without the
+    /// binding run entry 0 instead)
     pub entry: u8,
     /// per-mille rate of transient read faults; runs with a non-zero rate are not judged
     pub transient_pm: u16,
@@ -94,11 +97,17 @@ pub struct Workload {
     /// compile are both given that CompilerOpts)
     #[serde(default)]
     pub overlay: Vec<usize>,
+    /// search directories that are given by a relative name starting with `*`
+    /// (`*v<d>*`, next to the run directory), like the dialect pseudo-files' names
+    #[serde(default)]
+    pub starred: Vec<u8>,
 }
 
 /// where the files of search directory `d` really live
 fn real_dir(w: &Workload, d: u8) -> String {
-    if w.symlinked.contains(&d) {
+    if w.starred.contains(&d) {
+        format!("*v{}*", d)
+    } else if w.symlinked.contains(&d) {
         format!("{}/x{}", DIR, d)
     } else {
         format!("{}/d{}", DIR, d)
@@ -109,7 +118,9 @@ fn real_dir(w: &Workload, d: u8) -> String {
 /// `r/d<d>/lnk/..` where `lnk` is a symlink to `r/x<d>/sub` - the kernel resolves that to
 /// `r/x<d>`, a textual clean-up of the name to `r/d<d>`, which is another directory
 fn search_dir(w: &Workload, d: u8) -> String {
-    if w.symlinked.contains(&d) {
+    if w.starred.contains(&d) {
+        format!("*v{}*", d)
+    } else if w.symlinked.contains(&d) {
         format!("{}/d{}/lnk/..", DIR, d)
     } else {
         format!("{}/d{}", DIR, d)
@@ -233,9 +244,14 @@ fn place(path: &str, kind: u8, content: &[u8]) {
 pub fn setup_dir(w: &Workload) {
     let _ = fs::remove_dir_all(DIR);
     fs::create_dir_all(DIR).expect("mkdir run dir");
+    for d in 0..8u8 {
+        let _ = fs::remove_dir_all(format!("*v{}*", d));
+    }
     for d in 0..w.ndirs {
         fs::create_dir_all(format!("{}/d{}", DIR, d)).unwrap();
-        if w.symlinked.contains(&d) {
+        if w.starred.contains(&d) {
+            fs::create_dir_all(format!("*v{}*", d)).unwrap();
+        } else if w.symlinked.contains(&d) {
             fs::create_dir_all(format!("{}/x{}/sub", DIR, d)).unwrap();
             let _ = std::os::unix::fs::symlink(
                 format!("../x{}/sub", d),
@@ -247,7 +263,7 @@ pub fn setup_dir(w: &Workload) {
         for (d, k) in inc.copies.iter() {
             let p = format!("{}/{}", real_dir(w, *d), inc.name);
             place(&p, *k, render_inc(w, i, *d).as_bytes());
-            if w.symlinked.contains(d) {
+            if w.symlinked.contains(d) && !w.starred.contains(d) {
                 // a stale copy where a textually cleaned-up name would point
                 let stale = format!("{}/d{}/{}", DIR, d, inc.name);
                 place(&stale, REAL, render_inc(w, i, *d + 40).as_bytes());
@@ -334,12 +350,19 @@ pub fn generate(rng: &mut Rng, thorough: bool) -> Workload {
     // two name pools: unrelated names, and names one of which is a path suffix of another
     // (sub/a.clinc vs a.clinc), drawn in random order so the longer one may be met first
     let suffixy = rng.chance(1, 2);
-    let mut names: Vec<&str> = if suffixy {
+    // a third pool: names that begin like the dialect pseudo-files (`*standard-cl-21*`) but
+    // are ordinary files
+    let starry = rng.chance(1, 5);
+    let mut names: Vec<&str> = if starry {
+        vec!["*consts*", "a.clinc", "*k.clib", "sub/*s*.clinc", "b.clinc", "*standard-cl-20*", "c.clib"]
+    } else if suffixy {
         vec!["a.clinc", "sub/a.clinc", "lib/sub/a.clinc", "b.clinc", "sub/b.clinc", "c.clib", "x/c.clib"]
     } else {
         vec!["a.clinc", "b.clinc", "c.clib", "sub/d.clinc", "e.clinc", "sub/f.clib", "g.clinc"]
     };
-    let mut dnames: Vec<&str> = if suffixy {
+    let mut dnames: Vec<&str> = if starry {
+        vec!["*blob*.bin", "data.bin", "sub/*t*.sexp", "blob.hex"]
+    } else if suffixy {
         vec!["data.bin", "sub/data.bin", "blob.hex", "x/blob.hex"]
     } else {
         vec!["data.bin", "blob.hex", "tree.sexp", "sub/more.dat"]
@@ -439,7 +462,7 @@ pub fn generate(rng: &mut Rng, thorough: bool) -> Workload {
         incs,
         datas,
         main_refs,
-        entry: rng.below(4) as u8,
+        entry: rng.below(5) as u8,
         transient_pm: if rng.chance(1, 10) { 150 } else { 0 },
         nested_mod,
         hidden,
@@ -450,6 +473,11 @@ pub fn generate(rng: &mut Rng, thorough: bool) -> Workload {
         },
         overlay: if ninc > 0 && rng.chance(1, 4) {
             vec![rng.below(ninc as u64) as usize]
+        } else {
+            vec![]
+        },
+        starred: if rng.chance(1, 6) {
+            vec![rng.below(ndirs as u64) as u8]
         } else {
             vec![]
         },
@@ -539,7 +567,19 @@ fn actor_body(w: Workload) -> Box<dyn FnOnce(&Actor) + Send + 'static> {
             chialisp::classic::clvm_tools::cmds::launch_tool(&mut out, &args, "run", 2);
             String::from_utf8_lossy(out.get_value().data()).into_owned()
         };
-        let info = if w.entry == 3 {
+        let py_list = if w.entry == 4 {
+            crate::pybind::check_dependencies(MAIN, &search)
+        } else {
+            None
+        };
+        let entry = if w.entry == 4 && py_list.is_none() { 0 } else { w.entry };
+        let info = if let Some(l) = py_list {
+            let _g = seam::HarnessGuard::new();
+            match l {
+                Ok(names) => format!("ok:{}", serde_json::to_string(&names).unwrap()),
+                Err(e) => format!("err:{}", e),
+            }
+        } else if entry == 3 {
             let text = cli(true);
             let _g = seam::HarnessGuard::new();
             let lines: Vec<String> = text
@@ -557,7 +597,7 @@ fn actor_body(w: Workload) -> Box<dyn FnOnce(&Actor) + Send + 'static> {
             let listing = {
                 let opts: Rc<dyn CompilerOpts> = Rc::new(DefaultCompilerOpts::new(MAIN));
                 let opts = opts.set_search_paths(&search);
-                let opts: Rc<dyn CompilerOpts> = if w.entry == 0 && !w.overlay.is_empty() {
+                let opts: Rc<dyn CompilerOpts> = if entry == 0 && !w.overlay.is_empty() {
                     Rc::new(OverlayOpts {
                         opts,
                         overlay: OVERLAY.to_string(),
@@ -577,7 +617,11 @@ fn actor_body(w: Workload) -> Box<dyn FnOnce(&Actor) + Send + 'static> {
             }
         };
         actor.boundary("listed", &info);
-        let ok = match w.entry {
+        let ok = match entry {
+            4 => matches!(
+                crate::pybind::compile_clvm(MAIN, "r/out.hex", &search),
+                Some(Ok(_))
+            ),
             3 => {
                 let out = cli(false);
                 out.trim_start().starts_with('(')
@@ -841,8 +885,17 @@ impl Policy for C18Policy {
         self.probes.hit("oracle_evaluated");
         self.probes.hit(&format!(
             "oracle_evaluated_entry_{}",
-            ["compile_clvm_text_with_opts", "compile_clvm_text_plain", "compile_clvm_file", "cli_run_M"]
-                [self.w.entry as usize % 4]
+            [
+                "compile_clvm_text_with_opts",
+                "compile_clvm_text_plain",
+                "compile_clvm_file",
+                "cli_run_M",
+                if crate::pybind::available() {
+                    "python_binding"
+                } else {
+                    "compile_clvm_text_with_opts"
+                }
+            ][self.w.entry as usize % 5]
         ));
         Ok(())
     }
@@ -976,6 +1029,7 @@ impl Prop for C18 {
         "C18"
     }
     fn init_process() {
+        crate::pybind::init();
         // force the compiler's lazy statics outside any actor
         let mut allocator = clvmr::allocator::Allocator::new();
         use chialisp::compiler::compiler::DefaultCompilerOpts;
@@ -1069,6 +1123,11 @@ impl Prop for C18 {
             c.overlay.clear();
             out.push(c);
         }
+        if !w.starred.is_empty() {
+            let mut c = w.clone();
+            c.starred.clear();
+            out.push(c);
+        }
         if w.entry != 0 {
             let mut c = w.clone();
             c.entry = 0;
@@ -1106,9 +1165,10 @@ impl Prop for C18 {
     }
     fn real_vs_stub() -> serde_json::Value {
         serde_json::json!({
-            "real": ["chialisp::compiler::preprocessor::gather_dependencies (= run -M, Python check_dependencies)", "clvmc::compile_clvm_text with and without injected CompilerOpts, clvmc::compile_clvm", "DefaultCompilerOpts::read_new_file, classic _read / full_path_for_filename / embed reader", "std::fs, kernel tmpfs"],
+            "real": ["chialisp::compiler::preprocessor::gather_dependencies", "cmds::launch_tool (`run -M -i ..`, `run -i ..`) with its argument parsing", "clvmc::compile_clvm_text with and without injected CompilerOpts, clvmc::compile_clvm", "DefaultCompilerOpts::read_new_file, classic _read / full_path_for_filename / embed reader", "std::fs, kernel tmpfs"],
             "simulated": ["static and transient open/read faults", "entropy (getrandom)"],
-            "not_run": ["cmds.rs argument parsing around run -M", "pyo3 wrapper"]
+            "python_binding": if crate::pybind::available() { "real: src/py/api.rs `check_dependencies` and `compile_clvm` (pyo3 0.24, CPython 3.11 embedded in the worker) for entry 4, one layout in five" } else { "not in this build (built with --no-default-features): entry 4 runs entry 0" },
+            "not_run": ["wasm bindings"]
         })
     }
     fn bounds(thorough: bool) -> serde_json::Value {
